@@ -28,7 +28,7 @@ use crate::memory::{get_optimal_numa_node, numa_alloc_aligned, numa_dealloc};
 use std::sync::{Arc, Mutex};
 // Additional sync primitives (currently unused)
 // use std::sync::RwLock;
-use std::sync::atomic::{AtomicU32, AtomicUsize, Ordering};
+use std::sync::atomic::{AtomicU32, AtomicU64, AtomicUsize, Ordering};
 // Additional utilities (currently unused)
 // use std::collections::HashMap;
 // use std::marker::PhantomData;
@@ -176,17 +176,32 @@ impl Default for FreeListHead {
 #[derive(Debug)]
 #[repr(align(64))]
 struct LockFreeFreeListHead {
-    head: AtomicU32,
+    /// Packed head: generation counter (upper 32 bits) + block offset (lower 32 bits).
+    /// The CAS compares the whole word, so a head that was popped and pushed back in
+    /// between (ABA) no longer matches a stale value.
+    head: AtomicU64,
     count: AtomicU32,
-    _padding: [u8; 64 - 8], // Ensure 64-byte alignment
+    _padding: [u8; 64 - 12], // Ensure 64-byte alignment
+}
+
+impl LockFreeFreeListHead {
+    #[inline]
+    fn pack(offset: u32, generation: u32) -> u64 {
+        ((generation as u64) << 32) | offset as u64
+    }
+
+    #[inline]
+    fn unpack(packed: u64) -> (u32, u32) {
+        (packed as u32, (packed >> 32) as u32)
+    }
 }
 
 impl Default for LockFreeFreeListHead {
     fn default() -> Self {
         Self {
-            head: AtomicU32::new(u32::MAX),
+            head: AtomicU64::new(Self::pack(u32::MAX, 0)),
             count: AtomicU32::new(0),
-            _padding: [0; 64 - 8],
+            _padding: [0; 64 - 12],
         }
     }
 }
@@ -671,7 +686,8 @@ impl LockFreePool {
             
             // Lock-free compare-exchange loop
             loop {
-                let current_head = head.head.load(Ordering::Acquire);
+                let current_packed = head.head.load(Ordering::Acquire);
+                let (current_head, current_gen) = LockFreeFreeListHead::unpack(current_packed);
                 if current_head == u32::MAX {
                     break; // No free blocks
                 }
@@ -690,8 +706,8 @@ impl LockFreePool {
                 
                 // Try to update head atomically
                 match head.head.compare_exchange_weak(
-                    current_head,
-                    next_head,
+                    current_packed,
+                    LockFreeFreeListHead::pack(next_head, current_gen.wrapping_add(1)),
                     Ordering::Release,
                     Ordering::Relaxed
                 ) {
@@ -730,7 +746,8 @@ impl LockFreePool {
             
             // Lock-free insertion
             loop {
-                let current_head = head.head.load(Ordering::Acquire);
+                let current_packed = head.head.load(Ordering::Acquire);
+                let (current_head, current_gen) = LockFreeFreeListHead::unpack(current_packed);
 
                 // Write next pointer into freed block
                 unsafe {
@@ -744,8 +761,8 @@ impl LockFreePool {
                 
                 // Try to update head atomically
                 match head.head.compare_exchange_weak(
-                    current_head,
-                    offset.0,
+                    current_packed,
+                    LockFreeFreeListHead::pack(offset.0, current_gen.wrapping_add(1)),
                     Ordering::Release,
                     Ordering::Relaxed
                 ) {
